@@ -114,7 +114,15 @@ let run_split (args : (string * string) list) : string =
       match op with
       | "at" -> (model.lb_split (nl given_cuts), None)
       | "k" -> (split_iter model (n_of_int k), None)
-      | "ipl" -> let (r, b) = into_par_uniform model (n_of_int k) in (r, Some b)
+      | "ipl" ->
+        (* the DEFAULT number of parallel lenders is the implementation's choice (the pool
+           size today); the model is run for the number of parts the implementation actually
+           produced - the theorems hold for every part count - so that lenders and boundaries
+           are compared with the uniform split into that many parts *)
+        let k' = (match get_opt args "parts", status with
+                  | Some ps, "ok" -> let np = List.length (parse_parts ps) in if np >= 1 then np else k
+                  | _ -> k) in
+        let (r, b) = into_par_uniform model (n_of_int k') in (r, Some b)
       | "ipl_cp" -> let (r, b) = into_par_cutpoints model (nl given_cuts) in (r, Some b)
       | "ipl_dcf" ->
         let cwf = dcf_of (lb_iter model) in
